@@ -194,7 +194,10 @@ func (rc *LRURevisionCache) Peek(ctx context.Context, docID string, versionStrin
 	if value == nil {
 		return DocumentRevision{}, false
 	}
+	// the value may be in the middle of being loaded or stored by another goroutine, which writes its fields under the lock
+	value.lock.RLock()
 	docRev, err := value.asDocumentRevision(nil)
+	value.lock.RUnlock()
 	if err != nil {
 		return DocumentRevision{}, false
 	}
